@@ -122,7 +122,7 @@ func extremeSeqs(seed uint64, n int) []gen.Seq {
 // hostilePrelude calls every test with inadmissible inputs (nil, empty, one bit, one short of the minimum,
 // and one DFT input beyond 2^27 bits) and swallows whatever happens; what such calls do is outside the
 // property, but the admissible calls that follow in the same process must still return.
-func hostilePrelude(c *ev.Ctx) {
+func hostilePrelude(c *ev.Ctx) (hung bool) {
 	for _, sp := range allSpecs(1<<20, true) {
 		sp := sp
 		for _, n := range []int{0, 1, sp.minLen() - 1, 7} {
@@ -165,7 +165,9 @@ func hostilePrelude(c *ev.Ctx) {
 		}
 	case <-time.After(5 * time.Minute):
 		c.Violation("after-hostile-calls:no-return", "after inadmissible calls (recovered) an admissible call did not return within 5 minutes (normal: milliseconds)", "wellformed", nil)
+		return true
 	}
+	return false
 }
 
 func runC16(c *ev.Ctx) {
@@ -191,7 +193,9 @@ func runC16(c *ev.Ctx) {
 			works = append(works, work{sq})
 		}
 	}
-	hostilePrelude(c)
+	if hostilePrelude(c) {
+		return // the library no longer answers in this process: nothing else can be observed
+	}
 	passBoundarySweep(c, seed)
 	generalPassSweep(c, seed)
 	passNeedleSearch(c, seed)
